@@ -179,13 +179,14 @@ def mixed_dtype_jobs(rng, reps):
     whole numbers.  All 14 operators."""
     jobs = []
     for L, kinds in ((2, ["int64", "float64"]), (3, ["int32", "float64", "float32"]), (3, ["int64", "int32", "float64"]),
-                     (4, ["int64", "float64", "int32", "float32"])):
+                     (4, ["int64", "float64", "int32", "float32"]), (2, ["uint8", "float64"]),
+                     (3, ["uint16", "int8", "float32"]), (3, ["uint64", "int64", "float64"]), (2, ["uint32", "int16"])):
         for perm in sorted(set(itertools.permutations(kinds))):
             for _ in range(reps):
                 H, W = rng.choice([(4, 6), (5, 4)])
                 layers = []
                 for dt in perm:
-                    if dt.startswith("float"):      # codes in halves: 0, 0.5, ..., 3, NaN
+                    if dt.startswith("float"):      # codes in halves: 0, 0.5, ..., 3, NaN (NaN only in float layers)
                         layers.append([[NAN if rng.random() < 0.1 else rng.randrange(0, 7) for _ in range(W)]
                                        for _ in range(H)])
                     else:                           # whole numbers only (even codes)
